@@ -313,7 +313,7 @@ class CProg:
             fa, fb, fc = float(xv[a]), float(xv[b]), float(xv[c])
             ftol = float(tol)
             if fc > ftol:
-                v = fc * math.exp(fa / fc) - fb
+                v = (fc * math.exp(fa / fc) if fa / fc < 700 else 1e300) - fb
                 if v > ftol * (1 + abs(fb)):
                     bad.append(('exp', k, v))
             elif fc < -ftol:
